@@ -387,6 +387,81 @@ def find_pairs():
     return pairs
 
 
+def strip_tail_continue(fn, used):
+    """R14: a `continue` in tail position of a loop body is redundant (`except E: continue` as the
+    last thing a loop body does == `except E: pass`)"""
+    def tail(body):
+        if not body:
+            return body
+        last = body[-1]
+        if isinstance(last, ast.Continue):
+            used.add("R14:tail-continue")
+            return body[:-1] or [ast.Pass()]
+        if isinstance(last, ast.If):
+            last.body = tail(last.body)
+            last.orelse = tail(last.orelse) if last.orelse else last.orelse
+        elif isinstance(last, ast.Try) and not last.finalbody:
+            if not last.orelse:
+                last.body = tail(last.body)
+            else:
+                last.orelse = tail(last.orelse)
+            for h in last.handlers:
+                h.body = tail(h.body)
+        elif isinstance(last, (ast.With, ast.AsyncWith)):
+            last.body = tail(last.body)
+        return body
+
+    for n in ast.walk(fn):
+        if isinstance(n, (ast.For, ast.AsyncFor, ast.While)):
+            n.body = tail(n.body)
+    return fn
+
+
+def alpha_rename(fn, used):
+    """R13: local variables are renamed canonically in order of first binding (parameters, names
+    declared global/nonlocal and names of nested functions keep their names)"""
+    params = {a.arg for a in fn.args.posonlyargs + fn.args.args + fn.args.kwonlyargs}
+    if fn.args.vararg:
+        params.add(fn.args.vararg.arg)
+    if fn.args.kwarg:
+        params.add(fn.args.kwarg.arg)
+    keep = set(params)
+    for n in ast.walk(fn):
+        if isinstance(n, (ast.Global, ast.Nonlocal)):
+            keep.update(n.names)
+        if isinstance(n, (ast.FunctionDef, ast.AsyncFunctionDef, ast.ClassDef)) and n is not fn:
+            keep.add(n.name)
+            # parameters of nested functions keep their names too (keyword arguments at call sites)
+            keep.update(a.arg for a in n.args.posonlyargs + n.args.args + n.args.kwonlyargs) if not isinstance(n, ast.ClassDef) else None
+    order = []
+    bound = []
+    for n in ast.walk(fn):
+        if isinstance(n, ast.Name) and isinstance(n.ctx, (ast.Store, ast.Del)) and n.id not in keep:
+            bound.append((n.lineno, n.col_offset, n.id))
+        elif isinstance(n, ast.ExceptHandler) and n.name and n.name not in keep:
+            bound.append((n.lineno, n.col_offset, n.name))
+    for _l, _c, name in sorted(bound):
+        if name not in order:
+            order.append(name)
+    if not order:
+        return fn
+    mapping = {name: f"_v{i}" for i, name in enumerate(order)}
+
+    class Ren(ast.NodeTransformer):
+        def visit_Name(self, n):
+            if n.id in mapping:
+                n.id = mapping[n.id]
+            return n
+
+        def visit_ExceptHandler(self, n):
+            self.generic_visit(n)
+            if n.name in mapping:
+                n.name = mapping[n.name]
+            return n
+    used.add("R13:alpha-renaming-of-locals")
+    return Ren().visit(fn)
+
+
 def compare(sync_fn, async_fn, facts_sync=None, facts_async=None, sigs=None):
     """-> (equal: bool, tier: str, rules used, diff lines)"""
     a, b = erase(sync_fn), erase(async_fn)
@@ -416,5 +491,12 @@ def compare(sync_fn, async_fn, facts_sync=None, facts_async=None, sigs=None):
     sa, sb = ast.unparse(a), ast.unparse(b)
     if ast.dump(a) == ast.dump(b) or sa == sb:
         return True, "tier2:congruence modulo rewrite rules", sorted(used), []
+    # last resort: the same comparison after canonical renaming of locals and removal of
+    # redundant tail `continue`s (both behaviour-preserving)
+    used2: set = set()
+    a2 = alpha_rename(strip_tail_continue(copy.deepcopy(a), used2), used2)
+    b2 = alpha_rename(strip_tail_continue(copy.deepcopy(b), used2), used2)
+    if ast.unparse(a2) == ast.unparse(b2):
+        return True, "tier2:congruence modulo rewrite rules", sorted(used | used2), []
     diff = [l for l in difflib.unified_diff(sa.splitlines(), sb.splitlines(), "sync", "async(erased)", lineterm="", n=1)]
     return False, "differs", sorted(used), diff
